@@ -1976,10 +1976,21 @@ fn compile_aexpr_assign(
                 value: compile_cexpr(goenv, &other),
             }],
             anf::CExpr::ECall { func, args, ty } => {
-                vec![goast::Stmt::Assignment {
-                    name: go_ident(target),
-                    value: compile_cexpr(goenv, &anf::CExpr::ECall { func, args, ty }),
-                }]
+                // The match compiler calls `missing` at the type of the match, but the runtime
+                // helper returns struct{} (it never returns at all): only its effect is wanted.
+                let is_missing = matches!(
+                    &func,
+                    anf::ImmExpr::ImmVar { name, .. } if name == "missing"
+                ) && !matches!(ty, tast::Ty::TUnit);
+                let value = compile_cexpr(goenv, &anf::CExpr::ECall { func, args, ty });
+                if is_missing {
+                    vec![goast::Stmt::Expr(value)]
+                } else {
+                    vec![goast::Stmt::Assignment {
+                        name: go_ident(target),
+                        value,
+                    }]
+                }
             }
             anf::CExpr::EDynCall {
                 trait_name,
